@@ -78,6 +78,8 @@ type PageGen struct {
 	Kinds   []string // block kinds emitted, in order (for histograms)
 	// MarkMode: how "unlikely"-marked subtrees are emitted: 0 as marked, 1 deleted, 2 markers renamed to neutral values
 	MarkMode int
+	// DupAttrs: now and then an attribute is written twice on one element (the parser keeps both)
+	DupAttrs bool
 	// SafeMarkers: only marker words without a second documented meaning; marked wrappers hold only block content
 	SafeMarkers bool
 }
@@ -127,11 +129,22 @@ func (g *PageGen) mediaURL(ext string) string {
 	}
 }
 
+// dupURL: a second copy of a URL attribute (another value), when DupAttrs is on
+func (g *PageGen) dupURL(key string, val func() string) string {
+	if !g.DupAttrs || !g.R.Chance(12) {
+		return ""
+	}
+	return " " + key + `="` + val() + `"`
+}
+
 func (g *PageGen) deco() string {
 	if !g.Decorate {
 		return ""
 	}
 	s := ""
+	if g.DupAttrs && g.R.Chance(10) {
+		s += fmt.Sprintf(` class="c%d" id="i%d" class="d%d" style="x:y" id="j%d"`, g.R.Intn(100), g.R.Intn(100), g.R.Intn(100), g.R.Intn(100))
+	}
 	if g.R.Chance(40) {
 		s += fmt.Sprintf(` id="i%d"`, g.R.Intn(1000))
 	}
@@ -177,7 +190,7 @@ func (g *PageGen) inline(n int, depth int) string {
 			t := inlineTags[g.R.Intn(len(inlineTags))]
 			sb.WriteString("<" + t + g.deco() + ">" + g.inline(k, depth+1) + "</" + t + ">")
 		case c < 11:
-			sb.WriteString(`<a href="` + g.linkURL() + `"` + g.deco() + `>` + g.inline(k, depth+1) + "</a>")
+			sb.WriteString(`<a href="` + g.linkURL() + `"` + g.deco() + g.dupURL("href", g.linkURL) + `>` + g.inline(k, depth+1) + "</a>")
 		case c < 12:
 			if g.R.Chance(40) {
 				// a paragraph break inside the paragraph, followed by a link-heavy line
@@ -324,7 +337,7 @@ func (g *PageGen) img() string {
 	case 2:
 		return `<picture` + g.deco() + `><source srcset="` + g.mediaURL("webp") + ` 1x"><img src="` + g.mediaURL("jpg") + `"></picture>`
 	default:
-		return `<img src="` + g.mediaURL("jpg") + `" alt="` + "alt" + `"` + g.deco() + `>`
+		return `<img src="` + g.mediaURL("jpg") + `" alt="` + "alt" + `"` + g.deco() + g.dupURL("src", func() string { return g.mediaURL("jpg") }) + g.dupURL("srcset", func() string { return g.mediaURL("png") + " 2x" }) + `>`
 	}
 }
 
